@@ -24,7 +24,7 @@ func init() {
 				"contain a slash. R3: the ReverseProxy is built with Rewrite (which strips Forwarded / X-Forwarded-*) and without " +
 				"Director, and Rewrite only calls SetURL(target) and sets Host and User-Agent.",
 			NotCovered: "string predicates other than segment equality; behaviour of net/http and httputil themselves (hop-by-hop header handling).",
-			Rules: map[string]string{
+			Rules: map[string]string{"C19-R5": "websvc.New: the linked-IP listeners' handler is the proxy gate itself, built for the configured target (nothing is routed around it)", 
 				"C19-R1": "ServeHTTP gate and header effects", "C19-R2": "shouldProxy decision table incl. dot segments and split limit",
 				"C19-R3": "ReverseProxy literal: Rewrite, not Director; Rewrite's effects",
 				"C19-R4": "the client-IP header is (re-)set on the outgoing request inside Rewrite, i.e. after httputil has removed the hop-by-hop headers that the client's Connection header names",
@@ -33,6 +33,7 @@ func init() {
 }
 
 func runC19(c *an.Ctx) {
+	c19Servers(c)
 	c.Floor("C19-R1", 1)
 	c.Floor("C19-R2", 1)
 	c.Floor("C19-R3", 2)
@@ -331,4 +332,64 @@ func c19OutHeaders(c *an.Ctx, rewriteFn *ssa.Function) {
 	c.Check(keys[strings.ToLower(want)], "C19-R4", "websvc.linkedIPHandler Rewrite sets the client-IP header on the outgoing request", rewriteFn.Pos(),
 		"the client-IP header is set on the outgoing request after the hop-by-hop headers were removed",
 		"the client-IP header is only set on the inbound request: a client that sends \"Connection: "+want+"\" has it removed by httputil before Rewrite runs, and the backend gets a request without the connecting peer's address")
+}
+
+// c19Servers checks the wiring of the linked-IP listeners in websvc.New: the
+// handler of every server built next to a linkedIPHandler call is that call's
+// result itself (the gate of R1/R2 sees every request of the listener; nothing
+// routes some paths around it or to the main service), and it is built for the
+// configured target URL.
+func c19Servers(c *an.Ctx) {
+	c.Floor("C19-R5", 1)
+	const k = "websvc.New"
+	fn := c.Fn(k)
+	if fn == nil {
+		c.Und("C19-R5", k+" linked-IP servers", token.NoPos, "anchor not found")
+		return
+	}
+	c.Analysed(k)
+	var gates []*ssa.Call
+	for _, call := range an.Calls(fn) {
+		if cv, ok := call.(*ssa.Call); ok && strings.HasSuffix(an.CalleeName(call), "websvc.linkedIPHandler") {
+			gates = append(gates, cv)
+		}
+	}
+	if len(gates) == 0 {
+		c.Und("C19-R5", k+" linked-IP servers", fn.Pos(), "no call of linkedIPHandler")
+		return
+	}
+	for _, g := range gates {
+		// target: the configured URL
+		if ap, ok := an.AccessPath(g.Call.Args[0]); !ok || !strings.HasSuffix(ap, ".TargetURL") {
+			c.Bad("C19-R5", k+" linked-IP proxy target", g.Pos(), "the proxy is built for %s instead of the configured target URL", ap)
+		}
+		// the result must be stored, as it is, into the Handler of a server; and into nothing else
+		direct, other := 0, ""
+		var walk func(v ssa.Value, d int)
+		walk = func(v ssa.Value, d int) {
+			if v.Referrers() == nil || d > 3 {
+				return
+			}
+			for _, r := range *v.Referrers() {
+				switch x := r.(type) {
+				case *ssa.MakeInterface:
+					walk(x, d+1)
+				case *ssa.ChangeInterface:
+					walk(x, d+1)
+				case *ssa.Store:
+					if typ, field, _, ok := an.FieldOf(x.Addr); ok && typ == "net/http.Server" && field == "Handler" {
+						direct++
+					} else {
+						other = "stored elsewhere"
+					}
+				case ssa.CallInstruction:
+					other = "handed to " + an.Short(an.CalleeName(x))
+				}
+			}
+		}
+		walk(g, 0)
+		c.Check(direct == 1 && other == "", "C19-R5", k+" linked-IP listener serves through the proxy gate only", g.Pos(),
+			"the server's Handler is the gate itself",
+			fmt.Sprintf("the gate is not the listener's handler as such (%d direct uses; %s): requests can be routed around it or to the main service", direct, other))
+	}
 }
